@@ -806,14 +806,21 @@ fn check(section: &str, c: &Case, seed: u64, thorough: bool) -> CaseOut {
             for k in 0..n {
                 let d = coeffs[k].sub(&big[k]);
                 let mut err = d.to_f64();
+                let mut tol = ex.tol[k];
                 if approx {
                     // big[k] = round(real[k]); add the rounding residual back to compare with the real number
                     let r = ex.real[k];
                     if r.abs() < 4.5e15 {
                         err += r.round() - r;
                     }
+                } else {
+                    // exact entry points: at an exact tie (scaled value = k + 1/2) both neighbours are the rounded preimage
+                    let r = ex.real[k];
+                    if r.is_finite() && r.abs() < 4.5e15 && (r - r.trunc()).abs() == 0.5 && tol < 0.5 {
+                        err += r.round() - r;
+                        tol = 0.5;
+                    }
                 }
-                let tol = ex.tol[k];
                 if !(err.abs() <= tol) {
                     return CaseOut::fail(
                         format!("{section}:{entry}:wrong-coefficient:{}", mag_class(&maxmag)),
@@ -1574,10 +1581,28 @@ fn open_level(section: &str, spec: &ParamSpec, level_primes: usize) -> Result<(K
 }
 
 /// what one accepted encoding has to be
+/// +1 / -1 where v*scale is exactly a half-integer (sign of the product), 0 elsewhere
+fn tie_signs(vals: &[f64], scale: f64) -> Vec<i8> {
+    vals.iter()
+        .map(|&v| {
+            let p = v * scale;
+            if p.is_finite() && p.abs() < 4.5e15 && (p - p.trunc()).abs() == 0.5 {
+                if p > 0.0 { 1 } else { -1 }
+            } else {
+                0
+            }
+        })
+        .collect()
+}
+
 struct Want<'a> {
     /// approximate entry points: scale * preimage, per coefficient, and the allowance; exact ones: the integer vector
     real: Option<(&'a [f64], f64)>,
     ints: Option<&'a Ints>,
+    /// exact entry points: +1 / -1 where value*scale is exactly k+1/2 (sign of the value), 0 elsewhere. At such a coefficient
+    /// BOTH neighbours are "the rounded preimage" (|error| = 1/2 either way): f64::round takes the one away from zero, a
+    /// ties-to-even rounding the other one half of the time; the property does not choose (false alarm on benign change C12-P, §10).
+    ties: Vec<i8>,
     /// |v|_inf of the input
     vmax: f64,
     /// the input as slot values (what `decode` has to give back); None for coefficient lists
@@ -1634,9 +1659,38 @@ fn judge(section: &str, kit: &Kit12, lv: &Lvl, entry: Entry, inp: &Input, scale:
     // ---- the integer vector
     let got: Ints = if let Some(ints) = want.ints {
         let mm = ints.max_mag();
+        // at an exact tie the neighbour towards zero is admitted too: which one the library took is read off component 0 and
+        // must then be the same in every component ("one integer coefficient vector")
+        let mut towards_zero = vec![false; n];
+        if want.ties.iter().any(|&t| t != 0) {
+            let m = lv.moduli[0];
+            let d0 = fast_intt(&pt.data()[..n], lv.roots[0], m);
+            for i in 0..want.ties.len().min(n).min(ints.len()) {
+                let t = want.ties[i];
+                if t != 0 {
+                    let e = ints.residue(i, m);
+                    let alt = if t > 0 { (e + m - 1) % m } else { (e + 1) % m };
+                    if d0[i] != e && d0[i] == alt {
+                        towards_zero[i] = true;
+                    }
+                }
+            }
+        }
         for j in 0..k {
             let m = lv.moduli[j];
-            let e: Vec<u64> = (0..n).map(|i| if i < ints.len() { ints.residue(i, m) } else { 0 }).collect();
+            let e: Vec<u64> = (0..n)
+                .map(|i| {
+                    if i >= ints.len() {
+                        return 0;
+                    }
+                    let e = ints.residue(i, m);
+                    if towards_zero[i] {
+                        if want.ties[i] > 0 { (e + m - 1) % m } else { (e + 1) % m }
+                    } else {
+                        e
+                    }
+                })
+                .collect();
             let f = fast_ntt(&e, lv.roots[j], m);
             if f[..] != pt.data()[j * n..(j + 1) * n] {
                 let d = fast_intt(&pt.data()[j * n..(j + 1) * n], lv.roots[j], m);
@@ -1651,8 +1705,22 @@ fn judge(section: &str, kit: &Kit12, lv: &Lvl, entry: Entry, inp: &Input, scale:
         }
         let mut v = ints.clone();
         match &mut v {
-            Ints::Small(x) => x.resize(n, 0),
-            Ints::Big(x) => x.resize(n, BigI::new(false, BigU::zero())),
+            Ints::Small(x) => {
+                x.resize(n, 0);
+                for i in 0..n {
+                    if towards_zero[i] {
+                        x[i] -= want.ties[i] as i128;
+                    }
+                }
+            }
+            Ints::Big(x) => {
+                x.resize(n, BigI::new(false, BigU::zero()));
+                for i in 0..n {
+                    if towards_zero[i] {
+                        x[i] = x[i].sub(&BigI::from_i128(want.ties[i] as i128));
+                    }
+                }
+            }
         }
         v
     } else {
@@ -1884,7 +1952,7 @@ fn check_big(section: &str, c: &BigCase, seed: u64) -> CaseOut {
                 }
                 let tol = 0.5 + (n as f64) * logn * 2f64.powi(-52) * scale * vmax;
                 let sl = |j: usize| if j < vals.len() { vals[j] } else { (0.0, 0.0) };
-                let want = Want { real: Some((&real, tol)), ints: None, vmax, slots_in: Some(&sl), monomial: None };
+                let want = Want { real: Some((&real, tol)), ints: None, ties: vec![], vmax, slots_in: Some(&sl), monomial: None };
                 judge(section, &kit, &lv, c.entry, &inp, scale, &want, &er, &dirty, idx == 0, &ctxt)
             }
             (Input::Poly(vals), pos) => {
@@ -1897,7 +1965,7 @@ fn check_big(section: &str, c: &BigCase, seed: u64) -> CaseOut {
                     continue;
                 }
                 let vmax = vals.iter().fold(0.0f64, |a, v| a.max(v.abs()));
-                let want = Want { real: None, ints: Some(&ints), vmax, slots_in: None, monomial: pos };
+                let want = Want { real: None, ints: Some(&ints), ties: tie_signs(vals, scale), vmax, slots_in: None, monomial: pos };
                 judge(section, &kit, &lv, c.entry, &inp, scale, &want, &er, &dirty, idx == 0, &ctxt)
             }
             _ => unreachable!(),
@@ -2027,7 +2095,7 @@ fn check_primes(section: &str, c: &PrimesCase, seed: u64) -> CaseOut {
                     }
                     let tol = 0.5 + (n as f64) * logn * 2f64.powi(-52) * scale * vmax;
                     let sl = |j: usize| if j < vals.len() { vals[j] } else { (0.0, 0.0) };
-                    let want = Want { real: Some((&real, tol)), ints: None, vmax, slots_in: Some(&sl), monomial: None };
+                    let want = Want { real: Some((&real, tol)), ints: None, ties: vec![], vmax, slots_in: Some(&sl), monomial: None };
                     judge(section, &kit, &lv, c.entry, inp, scale, &want, &er, &dirty, first, &ctxt)
                 }
                 Input::F(_) | Input::I(_) | Input::Poly(_) => {
@@ -2052,7 +2120,12 @@ fn check_primes(section: &str, c: &PrimesCase, seed: u64) -> CaseOut {
                         Input::Poly(_) => None,
                         _ => Some(0),
                     };
-                    let want = Want { real: None, ints: Some(&ints), vmax, slots_in: if constant.is_some() { Some(&sl) } else { None }, monomial };
+                    let ties = match inp {
+                        Input::F(v) => tie_signs(&[*v], scale),
+                        Input::Poly(vs) => tie_signs(vs, scale),
+                        _ => vec![],
+                    };
+                    let want = Want { real: None, ints: Some(&ints), ties, vmax, slots_in: if constant.is_some() { Some(&sl) } else { None }, monomial };
                     judge(section, &kit, &lv, c.entry, inp, if c.entry == Entry::I64Single { 1.0 } else { scale }, &want, &er, &dirty, first, &ctxt)
                 }
             };
